@@ -208,7 +208,7 @@ func (g *G) stmtOf(c string, declsAllowed bool) []*Node {
 		obj := g.expr(kObj, 2)
 		if g.coin(35, "forinchain") {
 			// an object with enumerable properties on itself and on its prototype
-			inner := N("obj", NS("prop", "p", Num(1)), NS("prop", pick(g, propPool, "fp1"), Num(2)))
+			inner := N("obj", NS("prop", "p", Num(1)), NS("prop", pick(g, []string{"q", "r", "a", "b"}, "fp1"), Num(2)))
 			obj = Call(Dot(Id("Object"), "create"), inner)
 		}
 		body := Block(ExprStmt(&Node{K: "postupd", S: "++", C: []*Node{Id(cnt)}}))
